@@ -4,6 +4,7 @@ go 1.23.4
 
 require (
 	github.com/beevik/etree v1.5.0
+	github.com/openconfig/gnmi v0.13.0
 	github.com/sdcio/cache v0.0.35
 	github.com/sdcio/data-server v0.0.0
 	github.com/sdcio/schema-server v0.0.30
@@ -49,7 +50,6 @@ require (
 	github.com/modern-go/concurrent v0.0.0-20180306012644-bacd9c7ef1dd // indirect
 	github.com/modern-go/reflect2 v1.0.2 // indirect
 	github.com/munnerz/goautoneg v0.0.0-20191010083416-a7dc8b61c822 // indirect
-	github.com/openconfig/gnmi v0.13.0 // indirect
 	github.com/openconfig/gnmic/pkg/api v0.1.8 // indirect
 	github.com/openconfig/gnmic/pkg/target v0.1.4 // indirect
 	github.com/openconfig/gnmic/pkg/types v0.1.2 // indirect
